@@ -2575,6 +2575,7 @@ setattr_delegate(
     PyObject *temp;
     has_traits_object *delegate;
     has_traits_object *temp_delegate;
+    has_traits_object *source;
     int i, result;
 
     /* Follow the delegation chain until we find a non-delegated trait: */
@@ -2582,6 +2583,8 @@ setattr_delegate(
     Py_INCREF(daname);
     delegate = obj;
     for (i = 0;;) {
+        /* The object that 'traitd' is a trait of: */
+        source = delegate;
         dict = delegate->obj_dict;
         if ((dict != NULL)
             && ((temp_delegate = (has_traits_object *)PyDict_GetItem(
@@ -2607,7 +2610,7 @@ setattr_delegate(
             return bad_delegate_error2(obj, name);
         }
 
-        daname2 = traitd->delegate_attr_name(traitd, obj, daname);
+        daname2 = traitd->delegate_attr_name(traitd, source, daname);
         Py_DECREF(daname);
         daname = daname2;
         if (((delegate->itrait_dict == NULL)
